@@ -100,6 +100,21 @@ pub fn cases(rng: &mut Rng, tier: &str) -> (Vec<Case>, bool) {
                 checks.push(format!("reply-is {} P:{}", ops.len() - 1, hexs(&format!("{}\n", v.unwrap()))));
                 continue;
             }
+            if rng.chance(1, 7) {
+                // the host seeds again in the middle of the session: with 0, with the very state the generator is in, with a
+                // seed congruent to an earlier one - whatever was drawn before, the sequence restarts from that seed
+                let s2: u64 = match rng.below(6) {
+                    0 | 1 => 0,
+                    2 => state,
+                    3 => seed,
+                    4 => 1u64 << 33,
+                    _ => rng.pick(&boundary_seeds()),
+                };
+                ops.push(format!("seed {}", s2));
+                state = (s2 as u128 % M) as u64;
+                kinds.insert("reseed");
+                continue;
+            }
             if rng.chance(1, 8) {
                 // a line refused for a syntax error INSIDE the RND call (before its closing parenthesis): no value was
                 // returned, so the generator must not have moved - the next calls show it
